@@ -108,18 +108,12 @@ fn err_json(e: &Error) -> Value {
     }
 }
 
-fn spans_sorted(m: &ustr::UstrMap<HumanSpan>) -> Vec<Value> {
-    let mut v: Vec<(String, HumanSpan)> = m.iter().map(|(k, s)| (k.as_str().to_string(), *s)).collect();
-    v.sort_by_key(|(_, s)| (s.line, s.column_start, s.column_end));
-    v.into_iter().map(|(n, s)| json!({"name":n,"span":sp(&s)})).collect()
-}
-
 fn compile(usage: &str, shell: Shell) -> Value {
     let g = match Grammar::parse(usage) {
         Ok(g) => g,
         Err(e) => return json!({"verdict":"error","phase":"parse","err":err_json(&e)}),
     };
-    let mut vg = match ValidGrammar::from_grammar(g, shell) {
+    let vg = match ValidGrammar::from_grammar(g, shell) {
         Ok(v) => v,
         Err(e) => return json!({"verdict":"error","phase":"validate","err":err_json(&e)}),
     };
@@ -128,12 +122,8 @@ fn compile(usage: &str, shell: Shell) -> Value {
         Ok(r) => r,
         Err(e) => return json!({"verdict":"error","phase":"regex","err":err_json(&e)}),
     };
-    vg.undefined_nonterminals.remove(&ustr::ustr("_"));
-    let warn = json!({
-        "undefined": spans_sorted(&vg.undefined_nonterminals),
-        "unused": spans_sorted(&vg.unused_nonterminals),
-        "unused_spec": spans_sorted(&vg.unused_specializations),
-    });
+    // warnings are observed on the command's stderr (C15), not through the library's fields
+    let warn = json!({});
     let nregex = pool.verif_len();
     let raw = match DFA::from_regex_raw(re, &pool) {
         Ok(d) => d,
